@@ -443,3 +443,60 @@ pub(crate) fn default_ll_table() -> FSETable {
 pub(crate) fn default_of_table() -> FSETable {
     build_table_from_probabilities(OF_DIST, 5)
 }
+
+#[cfg(ruzstd_verif)]
+pub mod verif {
+    use super::{FSEEncoder, FSETable};
+    use crate::bit_io::BitWriter;
+    use alloc::vec::Vec;
+    fn describe(t: &FSETable) -> (u8, Vec<i32>, Vec<(u8, usize, usize, u8)>) {
+        let mut last = 0;
+        for (i, s) in t.states.iter().enumerate() {
+            if s.probability != 0 {
+                last = i;
+            }
+        }
+        let probs = t.states[..=last].iter().map(|s| s.probability).collect();
+        let mut states = Vec::new();
+        for (sym, s) in t.states.iter().enumerate() {
+            for st in s.states.iter() {
+                states.push((sym as u8, st.index, st.baseline, st.num_bits));
+            }
+        }
+        (t.acc_log(), probs, states)
+    }
+    /// (accuracy log, probabilities, states as (symbol, index, baseline, num_bits))
+    pub fn table_from_counts(
+        counts: &[usize],
+        max_log: u8,
+        avoid_0_numbit: bool,
+    ) -> (u8, Vec<i32>, Vec<(u8, usize, usize, u8)>) {
+        describe(&super::build_table_from_counts(
+            counts,
+            max_log,
+            avoid_0_numbit,
+        ))
+    }
+    pub fn table_from_probabilities(
+        probs: &[i32],
+        acc_log: u8,
+    ) -> (u8, Vec<i32>, Vec<(u8, usize, usize, u8)>) {
+        describe(&super::build_table_from_probabilities(probs, acc_log))
+    }
+    pub fn write_table(probs: &[i32], acc_log: u8) -> Vec<u8> {
+        let t = super::build_table_from_probabilities(probs, acc_log);
+        let mut writer = BitWriter::new();
+        t.write_table(&mut writer);
+        writer.dump()
+    }
+    /// table description + two interleaved states, with the production parameters of the caller
+    pub fn encode_interleaved(data: &[u8], max_log: u8, avoid_0_numbit: bool) -> Vec<u8> {
+        let mut writer = BitWriter::new();
+        let mut enc = FSEEncoder::new(
+            super::build_table_from_data(data.iter().copied(), max_log, avoid_0_numbit),
+            &mut writer,
+        );
+        enc.encode_interleaved(data);
+        writer.dump()
+    }
+}
